@@ -20,6 +20,7 @@ mod c18;
 mod c19;
 mod c20;
 mod guard;
+mod selftest;
 mod c10;
 mod c16;
 mod c17;
@@ -33,6 +34,16 @@ fn main() {
         std::process::exit(2);
     }
     let id = args[0].clone();
+    if id == "c19-exec" {
+        c19::exec_child();
+        return;
+    }
+    if id == "selftest-dump" {
+        let n: usize = args.get(1).and_then(|s| s.parse().ok()).unwrap_or(1000);
+        let seed: u64 = args.get(2).and_then(|s| s.parse().ok()).unwrap_or(1);
+        selftest::dump(n, seed);
+        return;
+    }
     let opts = Opts::from_args(&args[1..]);
     match id.as_str() {
         "C01" => run_prop(c01::C01, &opts),
